@@ -64,6 +64,29 @@ def snapshot(src):
     return len(_SNAP), len(_CACHES)
 
 
+class class_creation:
+    """`with class_creation():` around the creation of message / enum classes by the harness machinery: whatever the package records at class
+    creation time (a registry filled by __init_subclass__ or a metaclass) belongs to "freshly imported + these classes" and is folded into
+    the snapshot, so that the per-path reset does not wipe it"""
+
+    def __enter__(self):
+        self.before = [(obj, snap, (obj.copy() if not isinstance(obj, bytearray) else bytes(obj))) for obj, snap in (_SNAP or [])]
+        return self
+
+    def __exit__(self, *exc):
+        for obj, snap, before in self.before:
+            if isinstance(obj, dict):
+                for k, v in obj.items():
+                    if k not in before or before[k] is not v:
+                        snap[k] = v
+            elif isinstance(obj, set):
+                snap |= obj - before
+            elif isinstance(obj, list):
+                if len(obj) > len(before) and all(a is b for a, b in zip(obj, before)):
+                    snap.extend(obj[len(before) :])
+        return False
+
+
 def _message_classes():
     bp = sys.modules.get("betterproto")
     base = getattr(bp, "Message", None)
